@@ -1,5 +1,5 @@
 (* C12 — Close ends everything promptly and for good. *)
-From P2PV Require Import Lib.Base Model.Hub Proofs.HubP.
+From P2PV Require Import Lib.Base Model.Hub Proofs.HubP Model.Queue Proofs.QueueP.
 
 (* every Receive/ServeAsk/Deliver that is parked when the hub closes can return
    the close error at once: nothing it waits for can keep it *)
@@ -39,7 +39,23 @@ Example C12_nonvacuous :
   hrun hub0 [HRecvCall 0; HCloseBegin; HCloseEnd; HDlvCall 0; HMeet 0 0] = None.
 Proof. split; [vm_compute; discriminate|vm_compute; reflexivity]. Qed.
 
+(* ---- swarmutil.Queue (the buffer behind vswarm's Receive) ---- *)
+
+(* once closed, a queue accepts nothing, hands nothing out and never blocks a
+   Receive again, whatever is called on it; and it stays closed *)
+Theorem C12_queue_closed_is_final : forall q h o, QInv q h -> q_closed q = true ->
+  q_closed (fst (qstep q o)) = true /\
+  match snd (qstep q o) with QAccepted | QGot _ | QWouldBlock => False | _ => True end.
+Proof. exact closed_is_final. Qed.
+
+(* the invariant holds in every state a fresh queue can reach *)
+Theorem C12_queue_invariant : forall cap mtu ops,
+  QInv (fst (qhrun (new_queue cap mtu) (mkH [] []) ops)) (snd (qhrun (new_queue cap mtu) (mkH [] []) ops)).
+Proof. intros. apply qrun_inv, qinv_new. Qed.
+
 Print Assumptions C12_blocked_calls_released.
 Print Assumptions C12_no_delivery_after_close.
 Print Assumptions C12_no_spurious_result.
 Print Assumptions C12_close_idempotent.
+Print Assumptions C12_queue_closed_is_final.
+Print Assumptions C12_queue_invariant.
